@@ -103,7 +103,8 @@ Record tables := mk_tables {
   t_rdomain_max : Z;
   t_rdomain_fixed : bool;            (* which of the two known bodies config_default_rdomain has *)
   t_execdir_default : bytes;
-  t_depth_limit : nat }.
+  t_depth_limit : nat;
+  t_interp_path : bool               (* whether the interpolations done while parsing pass the configuration path to interpolate.c (findings/D16_interp_diag_path.diff) *) }.
 
 (* struct variable_value; DIRECTORY-typed defaults render like strings and are
    represented by VStr *)
@@ -169,6 +170,9 @@ Record cfg := mk_cfg {
   c_steps : list cstep;              (* cf->canvas.steps *)
   c_diags : list diag;               (* stderr, newest first *)
   c_abort : bool                     (* the C program would have trapped: assert, __builtin_trap, unbounded recursion *) }.
+
+(* the path the "invalid substitution" diagnostics of the parser carry *)
+Definition ipath (T : tables) : dpath := if t_interp_path T then P_conf else P_none.
 
 Definition cfg_init (T : tables) : cfg :=
   mk_cfg [] (t_rdomain_min T) false [] [] false.
